@@ -253,7 +253,11 @@ func H_C09_BeaconRegister() {
 	if rt.Choose(2) == 1 {
 		owner = strings.ToUpper(owner) // bech32 also accepts the all-upper-case spelling of the same address
 	}
-	msg := &beacontypes.MsgRegisterBeacon{Moniker: rt.Str("m.moniker"), Name: rt.Str("m.name"), Owner: owner}
+	moniker := rt.Str("m.moniker")
+	if rt.Choose(2) == 1 {
+		moniker = " spaced moniker " // surrounding whitespace is accepted by ValidateBasic and must be stored as submitted
+	}
+	msg := &beacontypes.MsgRegisterBeacon{Moniker: moniker, Name: rt.Str("m.name"), Owner: owner}
 	rt.Assume(msg.ValidateBasic() == nil)
 	rt.Assume(pre.Highest < 18446744073709551615)
 	srv := beaconkeeper.NewMsgServerImpl(be.K)
